@@ -30,7 +30,7 @@ BLOCK = 1024
 
 def gen_cases(tier, seed):
     cases = [dict(part='layout', start=s) for s in range(0, 2 ** 18, BLOCK)]
-    for bias_mask, vs in itertools.product(range(4), range(3)):
+    for bias_mask, vs in itertools.product(range(4), range(len(VALUE_SETS))):
         cases.append(dict(part='numeric', bias_mask=[0, 1, 5, 7][bias_mask], values=vs,
                           stamps=('uniform', 'irregular')[(bias_mask + vs) % 2] if tier == 'quick' else 'both'))
     for typ, st in itertools.product(('rate', 'increment'), ('uniform', 'irregular')):
@@ -44,10 +44,12 @@ def mask_params(mask):
     w = [(mask >> (3 + i)) & 1 for i in range(3)]
     nz = [(mask >> (6 + i)) & 1 for i in range(3)]
     sm = [[(mask >> (9 + 3 * i + j)) & 1 for j in range(3)] for i in range(3)]
-    bias_sd = np.array([0.1 * (i + 1) * b[i] for i in range(3)])
-    walk = np.array([0.01 * (i + 1) * w[i] for i in range(3)])
-    noise = np.array([0.001 * (i + 1) * nz[i] for i in range(3)])
-    sm_sd = np.array([[1e-3 * (3 * i + j + 1) * sm[i][j] for j in range(3)] for i in range(3)])
+    # every second group of seven masks uses nano-scale values: enabled means > 0, however small
+    sc = 1e-9 if (mask // 7) % 2 else 1.0
+    bias_sd = np.array([0.1 * sc * (i + 1) * b[i] for i in range(3)])
+    walk = np.array([0.01 * sc * (i + 1) * w[i] for i in range(3)])
+    noise = np.array([0.001 * sc * (i + 1) * nz[i] for i in range(3)])
+    sm_sd = np.array([[1e-3 * sc * (3 * i + j + 1) * sm[i][j] for j in range(3)] for i in range(3)])
     return b, w, nz, sm, bias_sd, walk, noise, sm_sd
 
 
@@ -148,6 +150,9 @@ VALUE_SETS = [
     dict(sm=lambda i, j: 1e-3 * (3 * i + j + 1) * (-1) ** (i + j), bias=[0.01, -0.02, 0.03]),
     dict(sm=lambda i, j: 0.05 * (1 + ((2 * i + j) % 3)) * (-1) ** j, bias=[1.0, 2.0, -0.5]),
     dict(sm=lambda i, j: 0.3 if i == j else 0.2 * (-1) ** i, bias=[-1e-4, 1e-4, 2e-4]),
+    # navigation-grade small values: a few ppm of scale factor, nano-radian misalignments, a 0.0004 deg/h bias -
+    # small is not zero (any tolerance-based comparison with the nominal value would drop them)
+    dict(sm=lambda i, j: 4e-6 * (-1) ** i if i == j else 3e-9 * (1 + i + j) * (-1) ** j, bias=[2e-9, -3e-9, 1e-9]),
 ]
 
 
